@@ -10,13 +10,14 @@ META = {
                  'resource bounds) + differential run of the extracted checked models against the real formatters '
                  '+ ASan/UBSan build of the real library over generated inputs with a per-input time budget',
     'text': 'PARTIAL. Theorems (Properties_C14.v): the checked transcription of FunctionToken::cleanup returns a result for '
-            'EVERY byte string (no at/mid/truncate/chop/remove out of range, no loop out of fuel, result never longer than the '
-            'input); parseFormatSpec, applyPadding (with 32-bit range checks and the bound max(|value|, width)), ShortFileToken, '
-            'parsePattern, the token loop (bounded by the sum of max(|value|, width), given the removal counters fit an int) and '
-            'PrettyFormatter\'s table index / width arithmetic are total as well; the unbounded cases are refuted by witnesses. '
-            'The models are tied to the code by constants re-read from the source on every run and by comparing their outputs '
-            'with the real library; what no Gallina model reaches (PCRE2/QRegularExpression, Qt allocation, QJsonDocument, C++ '
-            'memory safety) is covered only by the sanitizer run of the real library with a time budget - bounded search, not proof.',
+            'EVERY byte string a QByteArray can hold (no at/mid/truncate/chop/remove out of range, every position and bracket '
+            'counter within the int range, no loop out of fuel, result never longer than the input); parseFormatSpec, '
+            'applyPadding (32-bit range checks, |result| <= max(|value|, width), and the bound is attained: finding F6), '
+            'ShortFileToken, parsePattern, the token loop with the saturating pending-remove counter (|result| <= sum of '
+            'max(|value|, width)) and PrettyFormatter\'s table index / width arithmetic are total as well. The models are tied to '
+            'the code by constants re-read from the source on every run and by comparing their outputs with the real library; '
+            'what no Gallina model reaches (PCRE2/QRegularExpression, Qt allocation, QJsonDocument, C++ memory safety) is covered '
+            'only by the ASan+UBSan run of the real library with a time budget - bounded search, not proof.',
     'note': 'Trusted: Coq 8.16.1 kernel (vm_compute only for the closed constant checks), no axioms; tools/s2c/safety.py (regex '
             'translation of the qualifier list, operator characters, look-behind numbers, alignment characters, typeLetters, '
             'Pretty size constants); extraction (ExtrOcamlBasic) and ocaml/drv_cleanup.ml, drv_safety.ml; harness/h_safety.cpp; '
